@@ -398,7 +398,14 @@ func (p *progGen) node(b *strings.Builder, depth int) {
 		if depth == 0 {
 			p.macros = append(p.macros, m)
 		}
-		fmt.Fprintf(b, "{{ %s(%s) }}", m, p.strE())
+		switch p.g.Draw(3) {
+		case 0:
+			// the shape of the call depends on the context: all arguments in one execution, the
+			// default of the second one in another
+			fmt.Fprintf(b, "{%% if b1 %%}{{ %s(%s, %s) }}{%% else %%}{{ %s(%s) }}{%% endif %%}", m, p.strE(), p.strE(), m, p.strE())
+		default:
+			fmt.Fprintf(b, "{{ %s(%s) }}", m, p.strE())
+		}
 	case "import":
 		p.use("import")
 		if p.g.Draw(3) == 0 {
@@ -623,10 +630,15 @@ func GenProgramOpt(g *Tape, size int, allowMut bool) *ProgSpec {
 		var bb strings.Builder
 		bb.WriteString("BASE[")
 		p.budget = 2 + g.Draw(size/3+1)
-		p.body(&bb, 1)
-		bb.WriteString("{% block b1 %}base-b1:")
-		p.body(&bb, 1)
-		bb.WriteString("{% endblock %}|{% block b2 %}base-b2{{ y() }}{% endblock %}]\n")
+		if g.Draw(4) == 0 {
+			// a layout that consists of literal text only: whatever is dynamic comes from the children
+			bb.WriteString("lit <p>{% block b1 %}base-b1:lit{% endblock %}|{% block b2 %}base-b2 lit{% endblock %}]\n")
+		} else {
+			p.body(&bb, 1)
+			bb.WriteString("{% block b1 %}base-b1:")
+			p.body(&bb, 1)
+			bb.WriteString("{% endblock %}|{% block b2 %}base-b2{{ y() }}{% endblock %}]\n")
+		}
 		sp.Files["base.tpl"] = bb.String()
 		sp.Blocks = []string{"b1", "b2"}
 		withComp := g.Draw(3) == 0
